@@ -29,6 +29,9 @@ type c07Case struct {
 	Core     model.HexBytes `json:"core,omitempty"`  // innermost item bytes of a chain
 	Truncate int            `json:"truncate,omitempty"`
 	Patch    bool           `json:"patch,omitempty"` // rewrite the outer length to match
+	// History: inputs decoded by the same worker process right before this one (the decoder must not carry
+	// anything from one call to the next)
+	History []model.HexBytes `json:"history,omitempty"`
 }
 
 func init() { registerReplay("c07", checkC07) }
@@ -111,17 +114,43 @@ func checkC07(c c07Case) (ci caseInfo, err error) {
 		ci.Key = fmt.Sprintf("%s/%d/%x", c.Gen, len(in), hashBytes(in))
 	}
 	budget := 30*time.Second + time.Duration(len(in)/(1<<20))*10*time.Second
+	for _, h := range c.History {
+		if o, werr := pool.run("hsms", h, budget); werr != nil {
+			return ci, fmt.Errorf("harness: cannot start worker: %v", werr)
+		} else if o.Died || o.TimedOut {
+			return ci, fmt.Errorf("hsms.Parse died or hung (%s) on the history input %s", o.Fatal, hexPrefix(h, 40))
+		}
+	}
+	if len(c.History) > 0 {
+		ci.label("with-history")
+	}
+	before := pool.history("hsms")
 	out, werr := pool.run("hsms", in, budget)
 	if werr != nil {
 		return ci, fmt.Errorf("harness: cannot start worker: %v", werr)
 	}
 	if out.TimedOut {
-		out2, werr := runFresh("hsms", in, 3*budget)
+		// second stage: the same input after the same recent history, in a fresh worker with a larger budget
+		out2, werr := runFreshAfter("hsms", before, in, 3*budget)
 		if werr != nil {
 			return ci, fmt.Errorf("harness: %v", werr)
 		}
-		if out2.TimedOut {
-			return ci, fmt.Errorf("hsms.Parse does not return within %v on a %d-byte input (%s)", 3*budget, len(in), c.Gen)
+		if out2.TimedOut || out2.Died {
+			alone, _ := runFresh("hsms", in, 3*budget)
+			hist := c07Case{Gen: c.Gen + "+history", Bytes: in}
+			for _, h := range before {
+				hist.History = append(hist.History, h)
+			}
+			what := "does not return"
+			if out2.Died {
+				what = "aborts the process (" + out2.Fatal + ")"
+			}
+			if alone.TimedOut || alone.Died {
+				return ci, fmt.Errorf("hsms.Parse %s within %v on a %d-byte input (%s): %s", what, 3*budget, len(in), c.Gen, hexPrefix(in, 60))
+			}
+			err := fmt.Errorf("hsms.Parse %s within %v on the %d-byte input %s when it is decoded after the %d inputs the same process decoded before (alone it returns): state is carried between calls", what, 3*budget, len(in), hexPrefix(in, 40), len(before))
+			p := writeReplay("C07", "c07", hist, err)
+			return ci, fmt.Errorf("%v\n(the case with its history is stored in %s)", err, p)
 		}
 		stats.exclude("inconclusive-first-watchdog-expired")
 		out = out2
@@ -162,7 +191,7 @@ func wrapInLists(core []byte, depth int) []byte {
 }
 
 func genC07(t *rapid.T) c07Case {
-	switch rapid.IntRange(0, 11).Draw(t, "class") {
+	switch rapid.IntRange(0, 12).Draw(t, "class") {
 	case 0, 1, 2, 3:
 		// a short input declaring a huge length, at some nesting depth
 		kind := rapid.SampledFrom(model.AllKinds).Draw(t, "kind")
@@ -245,6 +274,18 @@ func genC07(t *rapid.T) c07Case {
 			body = append(body, 0x01, 0x00)
 		}
 		return c07Case{Gen: "nested-overdeclared-lists", Bytes: append(append([]byte(nil), c07Header...), body...), Patch: true}
+	case 11:
+		// a frame that only the constructors refuse (NaN / Inf float, non-ASCII byte, W-bit on an even function),
+		// then a well-formed frame with numbers, strings and lists: decoded by the same process, in this order
+		rejected := rapid.SampledFrom([][]byte{
+			{0x91, 0x04, 0x7F, 0xC0, 0x00, 0x01}, {0x91, 0x04, 0x7F, 0x80, 0x00, 0x00}, {0x81, 0x08, 0xFF, 0xF8, 0, 0, 0, 0, 0, 1},
+			{0x41, 0x02, 0x61, 0xE9}, {0x01, 0x02, 0xA5, 0x01, 0x05, 0x91, 0x04, 0xFF, 0xFF, 0xFF, 0xFF},
+		}).Draw(t, "rejectedText")
+		hist := patchLen(append(append([]byte(nil), c07Header...), rejected...))
+		tree := genTree(t, treeOpts{NoDeep: true, MaxDepth: 3}, newNamer(false, false))
+		m := &model.Msg{Session: 1, Stream: 1, Function: 1, Wait: true, Item: tree}
+		b, _, _ := model.RefEncodeMsg(m, nil)
+		return c07Case{Gen: "valid-after-constructor-refusal", Bytes: b, History: []model.HexBytes{hist, hist}}
 	case 9:
 		// wide lists of lists
 		w := rapid.IntRange(1, 255).Draw(t, "width")
@@ -253,7 +294,7 @@ func genC07(t *rapid.T) c07Case {
 			core = append(core, 0x01, 0x00)
 		}
 		return c07Case{Gen: "wide-list", Depth: rapid.IntRange(0, 20).Draw(t, "depth"), Core: core}
-	default:
+	default: // includes 12
 		body := rapid.SliceOfN(rapid.Byte(), 0, 300).Draw(t, "bytes")
 		if rapid.Bool().Draw(t, "framed") {
 			return c07Case{Gen: "random-framed", Bytes: append(append([]byte(nil), c07Header...), body...), Patch: true}
